@@ -186,6 +186,17 @@ impl Sess {
     /// Apply a line; returns the op line to record (observation-carrying spec lines are completed
     /// with what is observed on the real machine now) and the implementation's answer.
     pub fn apply2(&mut self, line: &str) -> (String, String) {
+        let snapshot = self.m.clone();
+        match catch_unwind(AssertUnwindSafe(|| self.apply2_inner(line))) {
+            Ok(r) => r,
+            Err(_) => {
+                self.m = snapshot;
+                self.last_panicked = true;
+                (line.to_string(), "panic".into())
+            }
+        }
+    }
+    fn apply2_inner(&mut self, line: &str) -> (String, String) {
         use emulator_2a_lib::machine::RegisterNumber as RN;
         let head = line.split(' ').next().unwrap_or("");
         match head {
